@@ -170,7 +170,7 @@ func (c *VC) buildInputs(o *Obligation, dir string, qual types.Qualifier) (decls
 			reqs = append(reqs, rvReq{key + ".len", mkField(in.Term, "sl_len")}, rvReq{key + ".cap", mkField(in.Term, "sl_cap")}, rvReq{key + ".base", mkField(in.Term, "sl_base")})
 			small = append(small, c.cmp(tokLEQ, mkField(in.Term, "sl_len"), c.idxLit(40), it), c.cmp(tokLEQ, mkField(in.Term, "sl_cap"), c.idxLit(64), it))
 			if eb, ok := u.Elem().Underlying().(*types.Basic); ok && eb.Kind() == types.Uint8 {
-				_, h := c.sliceHeap(st, c.byteSort())
+				_, h := c.sliceHeap(st, types.Typ[types.Uint8])
 				for k := 0; k < replayBytes; k++ {
 					reqs = append(reqs, rvReq{fmt.Sprintf("%s[%d]", key, k), mkSelect(mkSelect(h, mkField(in.Term, "sl_base")), c.binop(tokADD, mkField(in.Term, "sl_off"), c.idxLit(int64(k)), it))})
 				}
